@@ -44,7 +44,10 @@ RULE = (
     'between, above, several full steps, +-1; <= 600), 0-2 VDS; batch size passed to the constructor / new_combiner (either keyword), assigned by the '
     'public setter at boundary 0/1, or overridden by new_combiner on resume; driven as run() does; at every boundary with GVCFs queued (and the next one) '
     'the FS is snapshotted and the run resumed from the saved plan (load / load_combiner / new_combiner with overrides, rotating). More than the limit '
-    'itself in intervals (limit // n == 0) is not generated. Distinct by (n, #gvcfs, VDS, branch, batch, setter, header, interval mode, constructor, steps).'
+    'itself in intervals (limit // n == 0): phase biglist, 1 (thorough 2) cases per shard with a custom list of limit+1 .. 1.3*limit intervals, '
+    '1..3*branch GVCFs, branch 2-4, 0-1 VDS, four variants rotated over shards (setter at boundary 0 + external header + constructor; constructor batch 1 for '
+    'one step, then setter at boundary 1, own headers, new_combiner; constructor argument only + one resume from the saved plan; setter at boundary 0, own '
+    'headers, new_combiner(batch_size=)); a step after which neither queue has changed is reported at once (termination/step-makes-no-progress). Distinct by (n, #gvcfs, VDS, branch, batch, setter, header, interval mode, constructor, steps).'
 )
 ASSUMPTIONS = [
     'vf/sim/fake_hl.py models the engine: read/write/combine propagate column provenance, MatrixTable.write refuses an existing path '
@@ -60,7 +63,7 @@ ASSUMPTIONS = [
 ]
 TRUSTED_BASE = ['vf/sim/fake_hl.py (provenance-propagating engine fake, fake FS with overwrite/_SUCCESS semantics)']
 SHARDS = {'quick': 4, 'thorough': 16}
-TIMEOUT = {'quick': 300, 'thorough': 1500}
+TIMEOUT = {'quick': 600, 'thorough': 2400}
 
 
 def FLOORS(tier):
@@ -78,11 +81,16 @@ def FLOORS(tier):
         'tasklimit_runs': 12 if q else 150,
         'tasklimit_resumes': 40 if q else 500,
         'tasklimit_final_datasets_checked': 50 if q else 600,
-        'gvcf_steps_over_task_limit_with_backlog': 7 if q else 90,   # batch x #intervals > limit AND more GVCFs queued than (limit // #intervals) * branch
-        'gvcf_steps_over_task_limit_not_last': 2 if q else 30,
+        'gvcf_steps_over_task_limit_with_backlog': 15 if q else 200,   # batch x #intervals > limit AND more GVCFs queued than (limit // #intervals) * branch
+        'gvcf_steps_over_task_limit_not_last': 5 if q else 60,
         'setter_clamped': 1 if q else 15,
-        'tasklimit_step_classes': 5 if q else 7,
+        'tasklimit_step_classes': 4 if q else 7,
         'tasklimit_interval_modes': 3 if q else 4,
+        # ... with more import intervals than the limit itself (limit // #intervals == 0); one case per shard in the quick tier
+        'tasklimit_runs_with_more_intervals_than_the_limit': 2 if q else 16,
+        'setter_clamped_to_less_than_one': 1 if q else 8,
+        'biglist_variants': 2 if q else 4,
+        'biglist_resumes': 1 if q else 6,
     }
 
 
@@ -556,7 +564,10 @@ class Harness:
                 if saving is True or (saving == 'gvcf' and comb._gvcfs):   # 'gvcf': while GVCFs are queued only
                     comb.save()
                 self.note_step(comb)
+                before = (len(comb._gvcfs), comb._num_vdses)
                 comb.step()
+                if (len(comb._gvcfs), comb._num_vdses) == before:
+                    return (f'stalled:{before[0]} GVCFs and {before[1]} datasets queued before and after the step', steps + 1)
                 steps += 1
                 self.ctx.count('steps')
             if saving is True:
@@ -629,6 +640,10 @@ class Harness:
             return status
         if status.startswith('raised:'):
             self.report([('merge/step-raises', f'{how}: a step {status}', {})], extra)
+            return status
+        if status.startswith('stalled:'):
+            # the step took nothing: the next one starts from the same queues, run() never ends
+            self.report([('termination/step-makes-no-progress', f'{how}: step {steps} consumed nothing ({status[8:]})', {})], extra)
             return status
         self.ctx.count('final_datasets_checked')
         self.report(self.judge_output(w, how), extra)
@@ -853,6 +868,52 @@ def gen_limit_case(rng, limit, n_for_size, genome_default_size, quick=True):
     return c
 
 
+def gen_biglist_case(rng, limit, n, variant, quick=True):
+    """more import intervals than the merge-task limit (limit // n == 0): 1..3*bf GVCFs, batch size 1-5 given to the constructor /
+    new_combiner or assigned through the public setter at boundary 0 / 1, with and without external header.  `variant` (0-3, rotated over
+    shards and cases so that every run has all four) fixes how the batch size arrives; the rest is drawn from rng"""
+    c = Case()
+    c.limit, c.cap = limit, limit // n
+    c.interval_mode, c.import_size, c.n_intervals = 'custom', None, n
+    c.bf = rng.choice([2, 2, 3, 4])
+    c.setter, c.resume_at = {}, ()
+    c.batch = rng.choice([1, 1, 2, 3])
+    if variant == 0:      # setter before the first step, external header, plain constructor
+        c.setter[0] = rng.randrange(1, 6)
+        c.external, c.via_new = True, False
+        G = rng.randrange(1, 2 * c.bf + 1)
+    elif variant == 1:    # one step with the constructor's batch size, then the setter; GVCFs are still queued after that step
+        c.batch = 1
+        c.setter[1] = rng.randrange(1, 6)
+        c.external, c.via_new = False, True
+        G = rng.randrange(c.bf + 1, 2 * c.bf + 1)
+    elif variant == 2:    # no setter: constructor argument only; stop at a boundary and resume from the saved plan
+        c.external, c.via_new = True, rng.random() < 0.5
+        G = rng.randrange(1, 3 * c.bf + 1)
+        c.resume_at = (0,) if G <= c.batch * c.bf else (rng.choice([0, 1]),)
+    else:                 # setter before the first step, the files' own headers, new_combiner (deprecated keyword)
+        c.setter[0] = rng.randrange(1, 6)
+        c.external, c.via_new = False, True
+        G = rng.randrange(1, 2 * c.bf + 1)
+        if not quick:
+            c.resume_at = (0,)
+    c.batch_kw = 'batch_size' if (c.via_new and variant == 3) else 'gvcf_batch_size'
+    V = rng.choice([0, 0, 1])
+    c.vds = [(f'gs://in/v{j:02d}.vds', rng.randrange(1, 5001), rng.random() < 0.6) for j in range(V)]
+    ids = list(range(G))
+    rng.shuffle(ids)
+    c.gvcfs = [f'gs://in/sample_{j:04d}.g.vcf.bgz' for j in ids]
+    c.own_name = {p: 'S' + p[-14:-10] for p in c.gvcfs}
+    c.ext_name = {p: 'X' + p[-14:-10] for p in c.gvcfs}
+    c.counts_given = rng.random() < 0.6
+    c.size_mode = False
+    c.recoding = None
+    c.target_records = 24000
+    c.resume_bf = c.bf
+    c.resume_batch = rng.choice([c.batch, 1, 2])
+    return c
+
+
 def limit_case(ctx, case, rgs, types_, rng):
     """driven as run() does (save, step, ...); at every boundary with GVCFs still queued (and the one after) the FS is
     snapshotted and the run is resumed from the saved plan; same oracle as everywhere: termination + output == inputs"""
@@ -870,6 +931,11 @@ def limit_case(ctx, case, rgs, types_, rng):
         ctx.count('tasklimit_import_intervals', n_int)
         if n_int != case.n_intervals:
             ctx.inconclusive_because(f'task-limit phase: expected {case.n_intervals} import intervals, the combiner holds {n_int}')
+        big = limit // max(1, n_int) == 0        # more import intervals than the merge-task limit itself
+        if big:
+            ctx.count('tasklimit_runs_with_more_intervals_than_the_limit')
+            ctx.seen('biglist_variants', f'setter@{sorted(case.setter)}/' + ('external-header' if case.external else 'own-headers')
+                     + ('/new_combiner' if case.via_new else '/constructor') + (f'/resume@{sorted(case.resume_at)}' if case.resume_at else ''))
         k = 0
         deadline = step_bound(comb)
         had_gvcfs = True
@@ -884,9 +950,12 @@ def limit_case(ctx, case, rgs, types_, rng):
                 ctx.count('setter_assignments')
                 if comb._gvcf_batch_size != v:
                     ctx.count('setter_clamped')
+                if limit // max(1, n_int) < 1:
+                    ctx.count('setter_clamped_to_less_than_one')   # the setter's own arithmetic gives limit // #intervals == 0
+                    ctx.seen('batch_size_stored_when_limit_div_intervals_is_0', comb._gvcf_batch_size)
                 deadline = k + step_bound(comb)
             G = len(comb._gvcfs)
-            if G:
+            if G and not big:
                 over = comb._gvcf_batch_size * n_int > limit
                 ctx.seen('tasklimit_step_classes', ('over' if over else 'at' if (comb._gvcf_batch_size + 1) * n_int > limit else 'under') + '/'
                          + ('gvcfs<=cap*bf' if G <= case.cap * comb._branch_factor else 'gvcfs<=batch*bf' if G <= comb._gvcf_batch_size * comb._branch_factor
@@ -895,18 +964,23 @@ def limit_case(ctx, case, rgs, types_, rng):
             if not fin and not resume_here and later < 1 and rng.random() < 0.1:
                 resume_here = True
                 later += 1
-            if resume_here or fin:
+            if big:
+                # a plan with 150 000+ intervals costs ~8 s to write and ~15 s to load: written only where the case resumes
+                resume_here = not fin and k in case.resume_at
+            if resume_here or (fin and not big):
                 # run() saves before every step; writing a plan with thousands of intervals costs ~0.1 s, so at boundaries of
                 # the dataset-only tail (the regime of the 'plan' phase) the plan is written only where it is resumed from
                 comb.save()
             if resume_here:
                 modes = [rot[(k + r0) % len(rot)]]   # one way of resuming per boundary, rotating
+                if big:
+                    ctx.count('biglist_resumes')
                 for mode in modes:
                     f = clone_fs(w.fs)
                     with swap_fs(w, f):
                         st = H.resume_and_judge(vdc, w, f'stop after step {k}, save, {mode}', mode, [H.SAVE],
                                                 {'boundary': k, 'resume_mode': mode, 'gvcfs_queued': G, 'n_import_intervals': n_int},
-                                                saving='gvcf' if (k + r0) % 2 == 0 else False)
+                                                saving='gvcf' if ((k + r0) % 2 == 0 and not big) else False)
                         ctx.count('tasklimit_resumes')
                         if st == 'finished':
                             ctx.count('tasklimit_final_datasets_checked')
@@ -917,16 +991,24 @@ def limit_case(ctx, case, rgs, types_, rng):
                 break
             had_gvcfs = bool(G)
             H.note_step(comb)
+            before = (G, comb._num_vdses)
             try:
                 comb.step()
             except FatalError as e:
                 H.report([('merge/engine-error', f'step {k + 1} failed: {str(e)[:200]}', {})], {'boundary': k})
                 break
             except (IndexError, ZeroDivisionError, KeyError, ValueError, TypeError, AssertionError) as e:
-                H.report([('merge/step-raises', f'step {k + 1} raised {e!r}', {})], {'boundary': k})
+                H.report([('merge/step-raises', f'step {k + 1} raised {e!r}', {})],
+                         {'boundary': k, 'gvcfs_queued': G, 'gvcf_batch_size_in_effect': comb._gvcf_batch_size, 'n_import_intervals': n_int})
                 break
             k += 1
             ctx.count('steps')
+            if (len(comb._gvcfs), comb._num_vdses) == before:
+                # the step took nothing: the next one starts from the same queues, run() never ends
+                H.report([('termination/step-makes-no-progress', f'step {k} consumed nothing: {before[0]} GVCFs and {before[1]} datasets queued before and after it '
+                           f'(batch size in effect {comb._gvcf_batch_size})', {})],
+                         {'boundary': k, 'gvcfs_queued': G, 'gvcf_batch_size_in_effect': comb._gvcf_batch_size, 'n_import_intervals': n_int})
+                break
         if comb.finished:
             ctx.count('final_datasets_checked')
             ctx.count('tasklimit_final_datasets_checked')
@@ -1010,6 +1092,7 @@ def run(ctx):
     t_start = time.time() - ctx.t0   # importing hail without bytecode caching costs ~10 s; budgets count from here
     budget = ctx.pick(150, 900)     # safety net only (a loaded machine); the case counts below are the normal limit
     extra = ctx.pick(40, 200)       # on top, for the task-limit phase
+    extra_big = ctx.pick(150, 400)  # and for its cases with more import intervals than the limit (150 000+ real Interval objects)
     rgs = {'GRCh38': load_reference(B.REPO, 'GRCh38')}
     types_ = make_types(rgs['GRCh38'])
 
@@ -1038,9 +1121,15 @@ def run(ctx):
         ctx.set_time_budget(t_start + 0.70 * budget + extra)
         for i, rng in ctx.cases(ctx.pick(6, 24), 'tasklimit'):
             limit_case(ctx, gen_limit_case(rng, limit, n_for_size, VariantDatasetCombiner.default_genome_interval_size, ctx.quick), rgs, types_, rng)
+        # ---- more import intervals than the limit: one list length per shard (building the list costs ~8 s), variants rotate
+        nrng = ctx.rng('biglist-n')
+        n_big = limit + 1 + nrng.choice([0, 0, 1, nrng.randrange(limit // 20 + 1), nrng.randrange(3 * limit // 10 + 1)])
+        ctx.set_time_budget(t_start + 0.70 * budget + extra + extra_big)
+        for i, rng in ctx.cases(ctx.pick(1, 2), 'biglist'):
+            limit_case(ctx, gen_biglist_case(rng, limit, n_big, (ctx.seed + ctx.shard + i) % 4, ctx.quick), rgs, types_, rng)
     except FakeEngineGap as e:
         ctx.inconclusive_because(f'the combiner used an engine feature the provenance fake does not model: {e}')
-    ctx.set_time_budget(t_start + budget + extra)
+    ctx.set_time_budget(t_start + budget + extra + extra_big)
     if ctx.replay is None or ctx.replay.get('phase') == 'partition':
         partition_phase(ctx)
 
@@ -1067,3 +1156,19 @@ def run(ctx):
 #   partition fix reverted (= unchanged tree)                                                           yes  partitioning/last-base-uncovered
 # Not judged (counted): intervals that hold interval_size+1 bases (end - start == interval_size, both ends inclusive);
 # a resume that hits a half-written output (crash inside the final write) is refused by the engine ("file already exists").
+#
+# Task-limit phase (added after C38-agent8 was missed: _step_gvcfs took min(batch, limit // #intervals) * branch GVCFs but dropped
+# batch * branch from the queue; needs batch x #intervals > 150 000 and more GVCFs queued than the capped take -- no earlier case had more
+# than ~70 import intervals).  Scratch worktree, quick tier, seed 0:                                     caught (exit 1)?
+#   C38-agent8 (cap on the take only)                                                                   yes  merge/input-lost
+#   T1 cap on the drop only (take uncapped)                                                             yes  merge/input-duplicated (+ engine errors, step bound)
+#   T2 files capped consistently, sample-name queue dropped uncapped (external header)                  yes  merge/engine-error, resume/engine-error
+#   T3 take, drop and sample names all capped consistently (a CORRECT hardening: more, smaller steps)   no   HELD, all floors reached (the step bound allows for it)
+# More import intervals than the merge-task limit (phase biglist; limit // #intervals == 0, i.e. import_interval_size < ~20 kb on GRCh38).
+# Genuine defect on the unchanged tree: the public gvcf_batch_size setter stores limit // #intervals == 0 ("... using 0 instead").
+#   termination/step-makes-no-progress   with an external header every later GVCF step takes nothing (queues identical before and after): run() never ends
+#   merge/step-raises                    without one, _step_gvcfs raises IndexError at files_to_merge[0]
+# (batch sizes given to the constructor / new_combiner are not clamped and run to the correct output; so does a resume from such a plan.)
+# With `value = max(1, limit // len(intervals))` in the setter (scratch worktree, VERIF_REPO): HELD on quick seeds 0..4 and thorough seed 0,
+# all floors reached.  Cost: ~8 s to build the list, ~7 s per GVCF step, ~8 s per save, ~15 s per load with 150 001 intervals, hence one case per
+# shard in the quick tier (the four variants rotate over the shards), two in the thorough tier.
